@@ -64,6 +64,23 @@ template <class T> struct Expert {
     bool colequ() const { return equed[0] == 'C' || equed[0] == 'B'; }
 };
 
+inline uint64_t dig_raw(uint64_t h, const void *p, size_t bytes) { return bytes ? fnv1a(p, bytes, h) : h; }
+template <class T> inline uint64_t factor_digest_raw(const SuperMatrix *L, const SuperMatrix *U, const int *perm_r, const int *perm_c, int n)
+{
+    const SCformat *Ls = (const SCformat *)L->Store; const NCformat *Us = (const NCformat *)U->Store;
+    uint64_t h = 1469598103934665603ULL;
+    h = dig_raw(h, perm_r, sizeof(int) * (size_t)n); h = dig_raw(h, perm_c, sizeof(int) * (size_t)n);
+    h = dig_raw(h, &Ls->nsuper, sizeof Ls->nsuper); h = dig_raw(h, &Ls->nnz, sizeof Ls->nnz); h = dig_raw(h, &Us->nnz, sizeof Us->nnz);
+    if (Ls->nsuper < 0 || Ls->nsuper >= n) return h;
+    h = dig_raw(h, Ls->sup_to_col, sizeof(int) * (size_t)(Ls->nsuper + 2)); h = dig_raw(h, Ls->col_to_sup, sizeof(int) * (size_t)n);
+    h = dig_raw(h, Ls->rowind_colptr, sizeof(int_t) * (size_t)(n + 1)); h = dig_raw(h, Ls->nzval_colptr, sizeof(int_t) * (size_t)(n + 1)); h = dig_raw(h, Us->colptr, sizeof(int_t) * (size_t)(n + 1));
+    if (Ls->rowind_colptr[n] >= 0 && Ls->nzval_colptr[n] >= 0 && Us->colptr[n] >= 0) {
+        h = dig_raw(h, Ls->rowind, sizeof(int_t) * (size_t)Ls->rowind_colptr[n]); h = dig_raw(h, Ls->nzval, sizeof(T) * (size_t)Ls->nzval_colptr[n]);
+        h = dig_raw(h, Us->rowind, sizeof(int_t) * (size_t)Us->colptr[n]); h = dig_raw(h, Us->nzval, sizeof(T) * (size_t)Us->colptr[n]);
+    }
+    return h;
+}
+
 // The factored (possibly equilibrated) matrix AA~ = diag(R) AA diag(C) restricted by equed, from the caller's
 // returned storage (AA = A for NC, A^T for NR).
 template <class T> inline Dense<typename Wide<T>::W> factored_matrix(const Expert<T> &e)
